@@ -332,7 +332,7 @@ Proof.
             | E : stop_susp _ = (Exc _, _, _) |- _ => apply stop_susp_ok in E
             end; discriminate).
   (* not running: RestopError *)
-  all: try (split; [assumption | split; [apply G2_refl | rewrite D; intro Hx; discriminate Hx]]).
+  all: try (split; [assumption | split; [apply G2_refl | intro Hx; discriminate Hx]]).
   (* the common prefix: request, block, processor, retry timer *)
   all: assert (HJ0 : J (set_stopping true s)) by j_explicit.
   all: assert (Hns : rcall_stale s = false)
